@@ -226,7 +226,7 @@ func (e *Engine) findAllIndicesLoop(haystack []byte, n int, results [][2]int) []
 	// DFA fast path: call DFA functions directly, skip meta prefilter layer.
 	// SearchFirstAt has integrated prefilter at start state — no duplicate scan.
 	// Saves: 1 prefilter call per candidate + function dispatch overhead.
-	useDFADirect := (e.strategy == UseDFA || e.strategy == UseBoth) &&
+	useDFADirect := (e.strategy == UseDFA || e.strategy == UseBoth) && !e.longest &&
 		e.dfa != nil && e.reverseDFA != nil &&
 		state.dfaCache != nil && state.revDFACache != nil
 
@@ -322,7 +322,7 @@ func (e *Engine) Count(haystack []byte, n int) int {
 
 	// DFA fast path: call DFA functions directly, skip meta prefilter layer.
 	// SearchAt has integrated prefilter at start state — no duplicate scan.
-	useDFADirect := (e.strategy == UseDFA || e.strategy == UseBoth) &&
+	useDFADirect := (e.strategy == UseDFA || e.strategy == UseBoth) && !e.longest &&
 		e.dfa != nil && e.reverseDFA != nil &&
 		state.dfaCache != nil && state.revDFACache != nil
 
